@@ -2,6 +2,7 @@ import Knut.Driver.C04
 import Knut.Driver.C11
 import Knut.Model.BalanceCmd
 import Knut.Model.JournalPrinter
+import Knut.Spec.MTM
 /-! Driver ops for the balance command model (C01, C02, C03, C05, C06, C09). -/
 namespace Knut.Driver.Balance
 open Knut Knut.Wire Knut.Driver
@@ -82,6 +83,16 @@ def handle (fields : List String) : Option String :=
       match Check.run days with
       | .error _ => "error"
       | .ok _ => "ok " ++ hexStr (JournalPrinter.print days))
+  | ["c03mtm", v, j, f, dates] => some (
+    -- exact mark-to-market values: one line item per A/L account: name|D:mtmD:mtmF:steps|…  (F = day before the window start)
+    match (parseJournal j).bind Knut.Driver.C04.toDirectives, f.toInt?, (splitOn dates ',').mapM (·.toInt?) with
+    | some ds, some F, some Ds =>
+      let days := (Builder.ofList ds).build
+      let showO : Option Rat → String := fun o => match o with | some r => Dec.showRat r | none => "none"
+      String.intercalate " " ((Spec.alAccounts days).map (fun a =>
+        a.name ++ "|" ++ String.intercalate "|" (Ds.map (fun D =>
+          s!"{D}:{showO (Spec.mtm v days a D)}:{showO (Spec.mtm v days a F)}:{Spec.steps days a F D}"))))
+    | _, _, _ => "bad-op")
   | ["balance-spec", fl, j] => some (
     match parseFlags fl, (parseJournal j).bind Knut.Driver.C04.toDirectives with
     | some f, some ds => if f.valuation.isSome then "unsupported" else outcome (BalanceCmd.runSpec f ds)
